@@ -99,7 +99,18 @@ RefusedCases ==
   {[T |-> TStruct(<<Fld("A", <<65>>, TNamed(id)), PoorField(2)>>), V |-> VStruct(<<V0("opaque"), Leaf(tInt, 1)>>)] :
       id \in {"chan", "func", "complex128", "uintptr", "mapintstr"}}
   \cup {[T |-> TNamed(id), V |-> V0("opaque")] : id \in {"chan", "func", "complex128", "mapintstr"}}
-Cases == {x \in StructCases : Len(x.T.f) >= 1 /\ \E j \in 1..Len(x.T.f) : x.T.f[j].name \notin {"P", "Q", "R"}}
+\* two fields of the SAME type with different tags: a type is compiled as a
+\* plain value and as an inlined / omitted one within the same iterator
+PairTypes == {<<S1, S1Val(1, 1)>>, <<TPtr(S1), VPtr(S1Val(1, 0))>>, <<TMap(tInt), VMap(<<KV(<<97>>, Leaf(tInt, 1))>>)>>,
+              <<tIface, VIface(TMap(tIface), VMap(<<KV(<<107>>, VIface(tInt, Leaf(tInt, 1)))>>))>>,
+              <<TMap(tIface), VMap(<<KV(<<109>>, VIface(tStr, Leaf(tStr, 1)))>>)>>}
+PairTags == {<<>>, <<"inline">>, <<"omitempty">>}
+PairCases ==
+  {[T |-> TStruct(<<FldO("Ya", <<89, 97>>, o1, tv[1]), FldO("Xb", <<88, 98>>, o2, tv[1])>>),
+    V |-> VStruct(<<tv[2], tv[2]>>)] : tv \in PairTypes, o1 \in PairTags, o2 \in PairTags}
+  \cup {[T |-> TStruct(<<FldO("Ya", <<89, 97>>, o1, tv[1]), PoorField(2), FldO("Xb", <<88, 98>>, o2, TSlice(tv[1]))>>),
+         V |-> VStruct(<<tv[2], Leaf(tInt, 1), VSlice(<<tv[2]>>)>>)] : tv \in PairTypes, o1 \in PairTags, o2 \in {<<>>, <<"omitempty">>}}
+Cases == PairCases \cup {x \in StructCases : Len(x.T.f) >= 1 /\ \E j \in 1..Len(x.T.f) : x.T.f[j].name \notin {"P", "Q", "R"}}
          \cup (IF WithTop THEN PlainCases \cup RefusedCases ELSE {})
 
 Init == c = [T |-> tInt, V |-> V0("start")]
